@@ -7,6 +7,7 @@ import (
 	"fmt"
 	"io"
 	"math/rand/v2"
+	"reflect"
 	"runtime"
 	"sync"
 	"sync/atomic"
@@ -25,7 +26,7 @@ func init() {
 		Rule: "aliasing (normal build): generated streams demultiplexed with NextPacket/NextData; every result is deep-copied at delivery and re-compared after each later call (last 16) and at the end, while a second " +
 			"Demuxer on another stream advances in lock-step, the GC recycles the sync.Pool, and the input buffer is finally overwritten; Muxer inputs (payload, descriptor bytes) snapshotted and re-compared " +
 			"after every call. Concurrency (-race build): N in {2,4,8,16,32,64} goroutines each owning a Demuxer or Muxer on its own stream, results compared with solo runs, race detector log scanned; " +
-			"plus 110 000..400 000 packet streams with payloads of every size, each packet kept for 8192 (thorough 70 000) further calls and compared with the stream bytes (stage alias-endurance); 2..4 Demuxers on readers of every kind called in turns, each compared with its solo run (demux-lockstep); units shorter than a start code after other instances have loaded the pooled buffers (tiny-units); Muxer alias sessions on a writer that runs out of room; distinct = hash(stream(s), mode); non-trivial = ≥2 results snapshotted or ≥2 goroutines ran",
+			"plus 110 000..400 000 packet streams with payloads of every size, each packet kept for 8192 (thorough 70 000) further calls and compared with the stream bytes (stage alias-endurance); 2..4 Demuxers on readers of every kind called in turns, each compared with its solo run (demux-lockstep); units shorter than a start code after other instances have loaded the pooled buffers (tiny-units); byte slices kept without the structures they came in, across garbage collections and finalizers (alias-leaves); Muxer alias sessions on a writer that runs out of room; distinct = hash(stream(s), mode); non-trivial = ≥2 results snapshotted or ≥2 goroutines ran",
 		Assumptions: []string{"the schedules are those the Go scheduler produced under Gosched/GC pressure; the number of observed goroutine switch points is reported and guarded",
 			"the Muxer is allowed to touch documented struct fields of MuxerData (StuffingLength, StreamID); only payload and descriptor bytes are protected"},
 		Shards:     16,
@@ -34,6 +35,7 @@ func init() {
 		Race:       runC16Race,
 		Guards: func(m *mon.Merged, tier string) []string {
 			var out []string
+			need(m, &out, "leaf_runs", 30)
 			need(m, &out, "snapshots_taken", 5000)
 			need(m, &out, "long_stream_alias_runs", 6)
 			need(m, &out, "snapshot_recomparisons", 50000)
@@ -294,6 +296,13 @@ func runC16(c *mon.Ctx) {
 		c.Case(mon.HashBytes("alias-size", s1.Bytes[:376]), true)
 	}
 	nm := c.Pick(150, 20000)
+	// the byte slices of the results are the caller's even when it lets go of the structures they came in (a frame queue that keeps
+	// PES.Data): after garbage collections and finalizers have run, and more units have been parsed, they still hold their bytes
+	for i := int64(0); i < c.Pick(40, 600); i++ {
+		if c.Mine("alias-leaves", i) {
+			leavesCase(c, i, c.Rng("alias-leaves", i))
+		}
+	}
 	for i := int64(0); i < nm; i++ {
 		if !c.Mine("mux-alias", i) {
 			continue
@@ -1111,4 +1120,111 @@ func runC16Race(c *mon.Ctx) {
 			}
 		}
 	}
+}
+
+type byteLeaf struct {
+	path       string
+	live, copy []byte
+}
+
+// byteLeaves collects every non-empty byte slice reachable from v (without keeping v).
+func byteLeaves(v reflect.Value, path string, out *[]byteLeaf, seen map[uintptr]bool, depth int) {
+	if depth > 12 {
+		return
+	}
+	switch v.Kind() {
+	case reflect.Ptr:
+		if v.IsNil() || seen[v.Pointer()] {
+			return
+		}
+		seen[v.Pointer()] = true
+		byteLeaves(v.Elem(), path, out, seen, depth+1)
+	case reflect.Interface:
+		if !v.IsNil() {
+			byteLeaves(v.Elem(), path, out, seen, depth+1)
+		}
+	case reflect.Struct:
+		for k := 0; k < v.NumField(); k++ {
+			if v.Type().Field(k).IsExported() {
+				byteLeaves(v.Field(k), path+"."+v.Type().Field(k).Name, out, seen, depth+1)
+			}
+		}
+	case reflect.Slice:
+		if v.Type().Elem().Kind() == reflect.Uint8 {
+			if v.Len() > 0 {
+				b := v.Bytes()
+				*out = append(*out, byteLeaf{path, b, append([]byte{}, b...)})
+			}
+			return
+		}
+		for k := 0; k < v.Len(); k++ {
+			byteLeaves(v.Index(k), path, out, seen, depth+1)
+		}
+	}
+}
+
+func leavesCase(c *mon.Ctx, idx int64, r *rand.Rand) {
+	var in []byte
+	if idx%2 == 0 {
+		in = richStream(r).Bytes
+	} else {
+		m := gen.RandomModel(r, gen.ModelOpts{MaxPES: 3, MaxPMT: 2, MaxSI: 2, MaxUnits: 6, MaxPESLen: 2500})
+		in = m.Build(r).Bytes
+	}
+	// the stream three times over: enough units after the first ones for recycled buffers to come round
+	in = append(append(append([]byte{}, in...), in...), in...)
+	api := []string{"data", "packet"}[idx%2]
+	dmx, _ := NewDemuxerFor(in, DemuxCfg{PacketSize: 188, Reader: "seek", API: api})
+	var leaves []byteLeaf
+	n := 0
+	check := func(when string) bool {
+		for _, l := range leaves {
+			if !bytes.Equal(l.live, l.copy) {
+				c.Violate("C16/alias/bytes-kept-without-their-structure-changed:"+api+":"+l.path, "alias-leaves", idx, fmt.Sprintf("%d bytes kept from a result (%s) changed %s: first difference at %d", len(l.copy), l.path, when, firstDiff(l.live, l.copy)), map[string]any{"stream": mon.Hex(in, 1500)})
+				return false
+			}
+		}
+		return true
+	}
+	for call := 0; call < len(in)/188+64; call++ {
+		var v any
+		var err error
+		if p, pv, st := mon.Guarded(func() {
+			if api == "data" {
+				v, err = dmx.NextData()
+			} else {
+				v, err = dmx.NextPacket()
+			}
+		}); p {
+			c.Violate("C16/alias/panic", "alias-leaves", idx, fmt.Sprintf("%v\n%s", pv, st), nil)
+			return
+		}
+		if err == astits.ErrNoMorePackets {
+			break
+		}
+		if err != nil {
+			continue
+		}
+		byteLeaves(reflect.ValueOf(v), "", &leaves, map[uintptr]bool{}, 0)
+		v = nil
+		n++
+		if n%4 == 0 {
+			// two collections (an object with a finalizer is freed by the one after the one that runs it) and the processor yielded
+			// for the finalizer goroutine
+			for g := 0; g < 2; g++ {
+				runtime.GC()
+				for y := 0; y < 20; y++ {
+					runtime.Gosched()
+				}
+			}
+			c.Count("garbage_collections_between_results")
+			if !check("after a garbage collection and " + fmt.Sprint(n) + " results") {
+				return
+			}
+		}
+	}
+	check("at the end of the stream")
+	c.Add("byte_slices_kept_without_their_structure", int64(len(leaves)))
+	c.Count("leaf_runs")
+	c.Case(mon.HashBytes("leaves", in[:376]), len(leaves) >= 2)
 }
